@@ -1,13 +1,137 @@
 /-
   C17 — STARTTLS boundary: early plaintext is never treated as protected data.
-  Property theorems only; helper lemmas live in GoImap/Lemmas/StartTLS.lean.
+  Property theorems only; definitions (`Word`, `startTLSLine`, `okLine`, `preauthLine`, `credEv`, `CredInv`,
+  `Refusing`) and helper lemmas live in GoImap/Lemmas/StartTLS.lean and GoImap/Lemmas/StartTLSExec.lean.
 
-  Status (phase 1): decision table and the non-example; the switch theorems follow.
+  Proved (all at full strength, nothing partial):
+    route_segmentation_independent   with a drained reader the router is the byte-wise scan of the concatenation
+    server_switch                    ∀ segmentation of pre ++ "tag STARTTLS\r\n" ++ suffix: parser consumed exactly
+                                     pre ++ line, TLS received exactly suffix, no event originates in suffix
+    server_switch_no_exec            … and with a non-empty suffix the (trusted) TLS layer never completes a
+                                     handshake, so nothing at all is executed after the line
+    client_switch                    same for responses after the tagged OK of STARTTLS
+    no_plain_creds_table             decision table canAuth / availableCaps / canStartTLS (64 rows)
+    no_plain_creds                   along every plaintext run, in every segmentation, a credentials event implies
+                                     InsecureAuth; and the handler never hands credentials over unless canAuth
+    preauth_refused                  PREAUTH greeting ⇒ NewStartTLS = error whatever follows, no further command
+    keep_counterexample, keep_client_counterexample
+                                     the CVE-2011-0411 hand-over (not go-imap's) violates both switch theorems
+  Validated by the oracle only (not modelled): crypto/tls rejecting a stream that starts with injected bytes
+  (`tlsAccepts` states the assumption); TLS record framing of what the server writes after its OK.
+  Unfinished targets: none.
 -/
 import GoImap.Model.StartTLS
 import GoImap.Spec.StartTLS
+import GoImap.Lemmas.StartTLS
+import GoImap.Lemmas.StartTLSExec
 namespace GoImap.C17
-open GoImap GoImap.StartTLS
+open GoImap GoImap.StartTLS GoImap.StartTLSLemmas
+
+/-- With a drained reader (what go-imap does) the router does not depend on how the bytes were cut
+    into segments. -/
+theorem route_segmentation_independent {σ ε : Type} (exec : Exec σ ε) (x : σ) (segs segs' : List Bytes)
+    (h : segs.flatten = segs'.flatten) :
+    route .drain exec (RSt.init x) segs = route .drain exec (RSt.init x) segs' := by
+  rw [route_drain_eq_scan exec segs _ (by simp [RSt.init]), route_drain_eq_scan exec segs' _ (by simp [RSt.init]), h]
+
+/-- **Server side.** `pre` is any plaintext input that leaves the parser at a line boundary in plaintext
+    mode; the STARTTLS line (any tag, any spelling of the keyword) is acceptable in the state reached
+    (`canStartTLS`). For every segmentation of `pre ++ line ++ suffix`: the IMAP parser consumed exactly
+    `pre ++ line` in plaintext mode, every byte of `suffix` — buffered or not — went to the TLS layer, the
+    connection counts as TLS, the events are exactly those of `pre ++ line` and each originates inside it. -/
+theorem server_switch (c : Cfg) (pre tag kw suffix : Bytes) (segs : List Bytes)
+    (hflat : segs.flatten = pre ++ startTLSLine tag kw ++ suffix)
+    (hpre : (scan .drain (serverExec c) (RSt.init (srvInit c)) pre).mode = .plain ∧
+            (scan .drain (serverExec c) (RSt.init (srvInit c)) pre).cur = [])
+    (htag : Word tag) (hkw : Word kw) (hup : kw.map upper = kSTARTTLS)
+    (hcan : canStartTLS c (scan .drain (serverExec c) (RSt.init (srvInit c)) pre).st = true) :
+    let r := route .drain (serverExec c) (RSt.init (srvInit c)) segs
+    r.mode = .tls ∧ r.plain = pre ++ startTLSLine tag kw ∧ r.tls = suffix ∧ r.st.tls = true ∧
+      r.evs = (scan .drain (serverExec c) (RSt.init (srvInit c)) (pre ++ startTLSLine tag kw)).evs ∧
+      (∀ e ∈ r.evs, e.1 < (pre ++ startTLSLine tag kw).length) := by
+  have hline : startTLSLine tag kw = (tag ++ 32 :: (kw ++ [13])) ++ [10] := by simp [startTLSLine]
+  have hbody : ∀ b ∈ tag ++ 32 :: (kw ++ [13]), b ≠ 10 := by
+    intro b hb
+    simp only [List.mem_append, List.mem_cons, List.not_mem_nil, or_false] at hb
+    rcases hb with hb | rfl | hb | rfl
+    · exact word_no_lf htag b hb
+    · decide
+    · exact word_no_lf hkw b hb
+    · decide
+  have hex := serverExec_starttls c (scan .drain (serverExec c) (RSt.init (srvInit c)) pre).st tag kw htag hkw hup hcan
+  rw [hline] at hflat hex ⊢
+  have hsw : (serverExec c (scan .drain (serverExec c) (RSt.init (srvInit c)) pre).st
+      ((tag ++ 32 :: (kw ++ [13])) ++ [10])).2.2 = .switch := by rw [hex]
+  obtain ⟨h1, h2, h3, h4, h5⟩ := switch_generic (serverExec c) (srvInit c) pre _ suffix segs hflat hpre hbody hsw
+  refine ⟨h1, h2, h3, ?_, h4, h5⟩
+  -- the protocol state after the line is the handler's
+  have hr : route .drain (serverExec c) (RSt.init (srvInit c)) segs
+      = scan .drain (serverExec c) (RSt.init (srvInit c)) (pre ++ ((tag ++ 32 :: (kw ++ [13])) ++ [10]) ++ suffix) := by
+    rw [route_drain_eq_scan _ segs _ (by simp [RSt.init]), hflat]
+  show (route .drain (serverExec c) (RSt.init (srvInit c)) segs).st.tls = true
+  rw [hr, scan_append, scan_append]
+  generalize hs1 : scan .drain (serverExec c) (RSt.init (srvInit c)) pre = s1 at *
+  have hs2 := scan_noLF .drain (serverExec c) _ s1 hpre.1 hbody
+  have hstep : scan .drain (serverExec c) s1 ((tag ++ 32 :: (kw ++ [13])) ++ [10])
+      = stepByte .drain (serverExec c) (scan .drain (serverExec c) s1 (tag ++ 32 :: (kw ++ [13]))) 10 := by
+    rw [scan_append]; rfl
+  have hs3 := stepByte_LF .drain (serverExec c) (scan .drain (serverExec c) s1 (tag ++ 32 :: (kw ++ [13])))
+    (by rw [hs2]; exact hpre.1)
+  have hcur : (scan .drain (serverExec c) s1 (tag ++ 32 :: (kw ++ [13]))).cur = tag ++ 32 :: (kw ++ [13]) := by
+    rw [hs2]; simp [hpre.2]
+  have hst : (scan .drain (serverExec c) s1 (tag ++ 32 :: (kw ++ [13]))).st = s1.st := by rw [hs2]
+  rw [hcur, hst, hex] at hs3
+  rw [hstep, hs3, scan_tls .drain (serverExec c) suffix _ rfl]
+
+/-- … consequently, when anything at all was injected after the line, the TLS layer (trusted: a handshake
+    over a stream that starts with foreign bytes fails) never completes a handshake and the whole case
+    executes nothing but `pre ++ line`: no command inside TLS, no event from the suffix. -/
+theorem server_switch_no_exec (c : Cfg) (pre tag kw suffix : Bytes) (segs : List Bytes) (hs : Bool) (post : Bytes)
+    (hflat : segs.flatten = pre ++ startTLSLine tag kw ++ suffix)
+    (hpre : (scan .drain (serverExec c) (RSt.init (srvInit c)) pre).mode = .plain ∧
+            (scan .drain (serverExec c) (RSt.init (srvInit c)) pre).cur = [])
+    (htag : Word tag) (hkw : Word kw) (hup : kw.map upper = kSTARTTLS)
+    (hcan : canStartTLS c (scan .drain (serverExec c) (RSt.init (srvInit c)) pre).st = true)
+    (hinj : suffix ≠ []) :
+    let run := runServer .drain c segs hs post
+    run.accepted = true ∧ run.hsOK = false ∧ run.post = [] ∧
+      run.r.evs = (scan .drain (serverExec c) (RSt.init (srvInit c)) (pre ++ startTLSLine tag kw)).evs := by
+  obtain ⟨_, _, h3, h4, h5, _⟩ := server_switch c pre tag kw suffix segs hflat hpre htag hkw hup hcan
+  have hne : suffix.isEmpty = false := by cases suffix with | nil => exact absurd rfl hinj | cons _ _ => rfl
+  simp only [runServer, h3, h4, tlsAccepts, hne, Bool.and_false, Bool.false_eq_true, if_false]
+  exact ⟨trivial, trivial, by simp [RSt.init], h5⟩
+
+/-- **Client side.** `pre` is any plaintext response stream after which the STARTTLS command (tag `tag`) is
+    still pending and the parser is at a line boundary; `tag OK text` completes it. For every segmentation
+    of `pre ++ line ++ suffix`: the response parser consumed exactly `pre ++ line`, every byte of `suffix`
+    went to the TLS layer, and no event (nothing handed to the caller) originates in `suffix`. -/
+theorem client_switch (tag0 pre tag w suffix : Bytes) (segs : List Bytes)
+    (hflat : segs.flatten = pre ++ okLine tag w ++ suffix)
+    (hpre : (scan .drain clientExec (RSt.init (cliInit tag0)) pre).mode = .plain ∧
+            (scan .drain clientExec (RSt.init (cliInit tag0)) pre).cur = [])
+    (htag : Word tag) (hstar : tag ≠ kStar) (hw : Word w) (hcode : w.head? ≠ some 91)
+    (hpend : (scan .drain clientExec (RSt.init (cliInit tag0)) pre).st.pending = true)
+    (hstart : (scan .drain clientExec (RSt.init (cliInit tag0)) pre).st.startTag = tag) :
+    let r := route .drain clientExec (RSt.init (cliInit tag0)) segs
+    r.mode = .tls ∧ r.plain = pre ++ okLine tag w ∧ r.tls = suffix ∧
+      r.evs = (scan .drain clientExec (RSt.init (cliInit tag0)) (pre ++ okLine tag w)).evs ∧
+      (∀ e ∈ r.evs, e.1 < (pre ++ okLine tag w).length) := by
+  have hline : okLine tag w = (tag ++ 32 :: (kOK ++ 32 :: (w ++ [13]))) ++ [10] := by simp [okLine]
+  have hbody : ∀ b ∈ tag ++ 32 :: (kOK ++ 32 :: (w ++ [13])), b ≠ 10 := by
+    intro b hb
+    simp only [List.mem_append, List.mem_cons, List.not_mem_nil, or_false] at hb
+    rcases hb with hb | rfl | hb | rfl | hb | rfl
+    · exact word_no_lf htag b hb
+    · decide
+    · revert b; decide
+    · decide
+    · exact word_no_lf hw b hb
+    · decide
+  have hex := clientExec_ok (scan .drain clientExec (RSt.init (cliInit tag0)) pre).st tag w htag hstar hw hcode hpend hstart
+  rw [hline] at hflat hex ⊢
+  have hsw : (clientExec (scan .drain clientExec (RSt.init (cliInit tag0)) pre).st
+      ((tag ++ 32 :: (kOK ++ 32 :: (w ++ [13]))) ++ [10])).2.2 = .switch := by rw [hex]
+  exact switch_generic clientExec (cliInit tag0) pre _ suffix segs hflat hpre hbody hsw
 
 /-- Decision table of `canAuth` / `availableCaps` / `canStartTLS` (imapserver/conn.go, capability.go,
     starttls.go), all 64 rows: credentials are accepted only in the not-authenticated state and only
@@ -26,17 +150,97 @@ theorem no_plain_creds_table (c : Cfg) (st : CState) (tls : Bool) :
   rcases c with ⟨i, t, p⟩
   cases i <;> cases t <;> cases p <;> cases st <;> cases tls <;> decide
 
+/-- The handler of any line hands credentials (LOGIN arguments, a SASL response) to the session only when
+    `canAuth` holds; and along the whole raw-socket run of any input in any segmentation, a credentials
+    event implies that the server was configured with InsecureAuth (with a drained reader nothing is
+    executed on the raw socket once TLS is active). -/
+theorem no_plain_creds (c : Cfg) :
+    (∀ s line, ∀ ev ∈ (serverExec c s line).2.1, credEv ev = true → canAuth c s = true) ∧
+    (∀ segs : List Bytes, ∀ e ∈ (route .drain (serverExec c) (RSt.init (srvInit c)) segs).evs,
+        credEv e.2 = true → c.insecure = true) := by
+  refine ⟨fun s line => (serverExec_ok c s line).1, ?_⟩
+  intro segs
+  rw [route_drain_eq_scan _ segs _ (by simp [RSt.init])]
+  exact (scan_credInv c _ _ (credInv_init c)).2.2
+
+/-- A client that upgrades refuses a pre-authenticated greeting: whatever follows `* PREAUTH text` (the
+    tagged OK, injected responses, anything) in whatever segmentation, with or without a handshake,
+    NewStartTLS returns an error, and it puts no further command on the wire. -/
+theorem preauth_refused (tag w rest : Bytes) (segs : List Bytes) (hs : Bool)
+    (hw : Word w) (hcode : w.head? ≠ some 91) (hflat : segs.flatten = preauthLine w ++ rest) :
+    (runClient .drain tag segs hs).result = .error ∧ furtherCommands (runClient .drain tag segs hs).r.st = [] := by
+  refine ⟨?_, rfl⟩
+  show newStartTLS (route .drain clientExec (RSt.init (cliInit tag)) segs).st = .error
+  apply newStartTLS_refusing
+  rw [route_drain_eq_scan _ segs _ (by simp [RSt.init]), hflat, scan_append]
+  apply scan_refusing
+  -- the greeting line itself
+  have hline : preauthLine w = (kStar ++ 32 :: (kPREAUTH ++ 32 :: (w ++ [13]))) ++ [10] := by simp [preauthLine]
+  have hbody : ∀ b ∈ kStar ++ 32 :: (kPREAUTH ++ 32 :: (w ++ [13])), b ≠ 10 := by
+    intro b hb
+    simp only [List.mem_append, List.mem_cons, List.not_mem_nil, or_false] at hb
+    rcases hb with hb | rfl | hb | rfl | hb | rfl
+    · revert b; decide
+    · decide
+    · revert b; decide
+    · decide
+    · exact word_no_lf hw b hb
+    · decide
+  have hex := clientExec_preauth (cliInit tag) w hw hcode rfl
+  rw [hline] at hex ⊢
+  rw [scan_append, scan_noLF .drain clientExec _ (RSt.init (cliInit tag)) rfl hbody]
+  rw [scan_cons, scan_nil, stepByte_LF .drain clientExec _ rfl]
+  simp only [RSt.init, List.nil_append]
+  rw [hex]
+  exact ⟨rfl, by simp⟩
+
 def lineStartTLS : Bytes := [97, 32, 83, 84, 65, 82, 84, 84, 76, 83, 13, 10]        -- "a STARTTLS\r\n"
 def lineLogin : Bytes := [98, 32, 76, 79, 71, 73, 78, 32, 117, 32, 112, 13, 10]     -- "b LOGIN u p\r\n"
+def lineGreet : Bytes := [42, 32, 79, 75, 32, 104, 105, 13, 10]                     -- "* OK hi\r\n"
+def lineT1OK : Bytes := [84, 49, 32, 79, 75, 32, 103, 111, 13, 10]                  -- "T1 OK go\r\n"
+def line5Exists : Bytes := [42, 32, 53, 32, 69, 88, 73, 83, 84, 83, 13, 10]         -- "* 5 EXISTS\r\n"
 
 /-- Non-example (NOT go-imap's behaviour): a reader that is not drained at the switch executes a
     LOGIN pipelined in the segment of the STARTTLS line, and accepts the credentials as if they had
-    arrived inside TLS (CVE-2011-0411). -/
+    arrived inside TLS (CVE-2011-0411) — `server_switch` fails for `Handover.keep`. -/
 theorem keep_counterexample :
     (route .keep (serverExec ⟨false, true, false⟩) (RSt.init (srvInit ⟨false, true, false⟩))
-        [lineStartTLS ++ lineLogin]).evs.map (·.2)
-      = [.reply [97] .ok none, .call (.login [117] [112]) true,
-         .reply [98] .ok (some ⟨false, false, false, true⟩)] := by
+        [lineStartTLS ++ lineLogin]).evs
+      = [(11, .reply [97] .ok none), (24, .call (.login [117] [112]) true),
+         (24, .reply [98] .ok (some ⟨false, false, false, true⟩))] ∧
+    (route .drain (serverExec ⟨false, true, false⟩) (RSt.init (srvInit ⟨false, true, false⟩))
+        [lineStartTLS ++ lineLogin]).evs = [(11, .reply [97] .ok none)] := by
+  decide
+
+/-- the same on the client: an `EXISTS` appended to the tagged OK in the same segment is handed to the
+    caller by an undrained reader, and is not by go-imap's -/
+theorem keep_client_counterexample :
+    ((route .keep clientExec (RSt.init (cliInit [84, 49])) [lineGreet, lineT1OK ++ line5Exists]).evs.map (·.2)).contains (.exists_ 5) = true ∧
+    ((route .drain clientExec (RSt.init (cliInit [84, 49])) [lineGreet, lineT1OK ++ line5Exists]).evs.map (·.2)).contains (.exists_ 5) = false ∧
+    (route .drain clientExec (RSt.init (cliInit [84, 49])) [lineGreet, lineT1OK ++ line5Exists]).tls = line5Exists := by
+  decide
+
+/-! ### the hypotheses are satisfiable (non-vacuity) -/
+
+example : Word [97] ∧ Word kSTARTTLS ∧ kSTARTTLS.map upper = kSTARTTLS := by
+  refine ⟨⟨by decide, by decide⟩, ⟨by decide, by decide⟩, by decide⟩
+
+/-- `server_switch` applies to: pre = "p CAPABILITY\r\n", line "a starttls\r\n", server with TLS, no InsecureAuth -/
+example :
+    let c : Cfg := ⟨false, true, false⟩
+    let pre : Bytes := [112, 32, 67, 65, 80, 65, 66, 73, 76, 73, 84, 89, 13, 10]
+    ((scan .drain (serverExec c) (RSt.init (srvInit c)) pre).mode = .plain ∧
+     (scan .drain (serverExec c) (RSt.init (srvInit c)) pre).cur = []) ∧
+    canStartTLS c (scan .drain (serverExec c) (RSt.init (srvInit c)) pre).st = true ∧
+    ([115, 116, 97, 114, 116, 116, 108, 115] : Bytes).map upper = kSTARTTLS := by
+  decide
+
+/-- `client_switch` applies to: pre = "* OK hi\r\n", tag T1 -/
+example :
+    ((scan .drain clientExec (RSt.init (cliInit [84, 49])) lineGreet).mode = .plain ∧
+     (scan .drain clientExec (RSt.init (cliInit [84, 49])) lineGreet).cur = []) ∧
+    (scan .drain clientExec (RSt.init (cliInit [84, 49])) lineGreet).st.pending = true ∧
+    (scan .drain clientExec (RSt.init (cliInit [84, 49])) lineGreet).st.startTag = [84, 49] := by
   decide
 
 end GoImap.C17
